@@ -126,20 +126,21 @@ def compress_remb(remb):
 
 
 def compress_outs(outs):
-    """per-call outputs [lat] | [lat, e, ssrcs, remb] -> ([lat] | [lat, e, index, remb'], table of distinct SSRC lists)"""
+    """per-call outputs [lat, rate] | [lat, rate, e, ssrcs, remb] ->
+    ([lat, rate] | [lat, rate, e, index, remb'], table of distinct SSRC lists)"""
     table = []
     index = {}
     res = []
     for o in outs:
-        if len(o) == 1:
+        if len(o) == 2:
             res.append(o)
             continue
-        lat, e, ss, remb = o
+        lat, rt, e, ss, remb = o
         k = tuple(ss)
         if k not in index:
             index[k] = len(table)
             table.append(list(ss))
-        res.append([lat, e, index[k], compress_remb(remb)])
+        res.append([lat, rt, e, index[k], compress_remb(remb)])
     return res, table
 
 
@@ -467,8 +468,11 @@ class C15(Check):
                 r = est.add(arrival_time_ms=t, abs_send_time=send, payload_size=size, ssrc=ssrc)
                 verdict = est.detector.state().value
                 lat = rc.latest_estimated_throughput
+                # observation for the correspondence: rate(t) again at the same t (its erase loop is a no-op now)
+                rt = est.incoming_bitrate.rate(t)
+                rt = [] if rt is None else [rt]
                 if r is None:
-                    outs.append([lat])
+                    outs.append([lat, rt])
                 else:
                     e, ss = r
                     if not isinstance(e, int) or isinstance(e, bool):
@@ -477,7 +481,7 @@ class C15(Check):
                         remb = [0, list(rtp.pack_remb_fci(e, ss))]
                     except Exception as exc:
                         remb = [classify_exc(exc)]
-                    outs.append([lat, e, list(ss), remb])
+                    outs.append([lat, rt, e, list(ss), remb])
                 per_call.append([verdict, ncalls if len(rc.calls) > ncalls else -1])
             except Exception as exc:
                 status = classify_exc(exc)
@@ -703,12 +707,12 @@ class C15(Check):
                     return ("window-inexact", f"arrival {i} (t={t}): incoming bitrate handed to the rate controller is "
                                               f"{got}; the {len(samples)} packets of the last 1000 ms carry {total} "
                                               f"bytes (active window {lo}..{hi} ms)")
-                calls.append(list(c) + [o[1] if len(o) > 1 else None])
+                calls.append(list(c) + [o[2] if len(o) > 2 else None])
                 verdicts.append(verdict)
-            elif len(o) > 1:
+            elif len(o) > 2:
                 return ("estimate-without-update", f"arrival {i} returned {o} without a rate-control update")
-            if len(o) > 1:
-                lat, e, si, remb = o
+            if len(o) > 2:
+                lat, rt, e, si, remb = o
                 ss = table[si]
                 want_ss = seen[-255:]
                 if ss != want_ss:
@@ -750,7 +754,7 @@ class C15(Check):
                     return True
             return False
         if kind == 2:
-            n_est = sum(1 for o in out[1] if len(o) > 1)
+            n_est = sum(1 for o in out[1] if len(o) > 2)
             over = any(p[0] == 2 for p in out[4][2])
             gaps = any(b[0] - a[0] >= 1000 for a, b in zip(case[1], case[1][1:]))
             return n_est >= 2 and (over or gaps)
@@ -782,8 +786,8 @@ class C15(Check):
                     d["rbe_cases"] += 1
                     arr = c[1]
                     d["arrivals"] += len(arr)
-                    d["estimates"] += sum(1 for x in o[1] if len(x) > 1)
-                    d["estimate_zero"] += sum(1 for x in o[1] if len(x) > 1 and x[1] == 0)
+                    d["estimates"] += sum(1 for x in o[1] if len(x) > 2)
+                    d["estimate_zero"] += sum(1 for x in o[1] if len(x) > 2 and x[2] == 0)
                     d["zero_size"] += sum(1 for a in arr if a[2] == 0)
                     d["same_ms_arrivals"] += sum(1 for a, b in zip(arr, arr[1:]) if a[0] == b[0])
                     d["gaps_over_1s"] += sum(1 for a, b in zip(arr, arr[1:]) if b[0] - a[0] > 1000)
